@@ -100,5 +100,14 @@ pub fn vx_skip_slice<T>(s: &[T], n: usize) -> (r: &[T])
     ensures r@ == s@.skip(if n <= s@.len() { n as int } else { s@.len() as int })
 { &s[n.min(s.len())..] }
 
+// TRUSTED[isize-unsigned-abs]: isize::unsigned_abs is the absolute value as usize, without overflow (std doc).
+pub assume_specification [isize::unsigned_abs] (x: isize) -> (r: usize)
+    ensures r as int == (if x >= 0 { x as int } else { -(x as int) });
+// TRUSTED[isize-rem-euclid]: isize::rem_euclid(rhs) for rhs > 0 is the least non-negative remainder (std doc); it panics for rhs == 0 and
+// overflows for MIN.rem_euclid(-1). Verus' `%` on int is the Euclidean remainder.
+pub assume_specification [isize::rem_euclid] (x: isize, rhs: isize) -> (r: isize)
+    requires rhs != 0, !(x == isize::MIN && rhs == -1),
+    ensures rhs > 0 ==> r as int == (x as int) % (rhs as int), 0 <= r, rhs > 0 ==> r < rhs;
+
 }
 }
